@@ -347,12 +347,12 @@ pub fn run(ctx: &Ctx) -> Report {
     }
     let corpus = load_corpus();
     let n_g = ctx.pick(90u64, 3000);
-    let n_c = ctx.pick(50usize, 892);
+    let n_c = ctx.pick(50usize, 300);
     let quick_forms: Vec<usize> = vec![0, 1, 2, 4, 6, 7, 9, 10, 13, 14];
     let all_forms: Vec<usize> = (0..FORMS.len()).collect();
     let forms = if ctx.quick() { quick_forms } else { all_forms };
     let max_b = ctx.pick(90usize, 300);
-    let max_b_corpus = ctx.pick(24usize, 120);
+    let max_b_corpus = ctx.pick(24usize, 60);
     let n_multi = ctx.pick(12usize, 120);
     let seed = ctx.seed;
     let acc = Acc::new(rep);
